@@ -94,7 +94,41 @@ def corpus():
                                                     hl7apy.core.is_base_datatype('DTM', v))[1:])
     c['parse_oru'] = ('X', lambda v, l: lambda: _parse_tree(ORU % v, l))
     c['parse_custom'] = ('X', lambda v, l: lambda: _parse(CUSTOM % v, l))
+    # a long background body: every datatype, base datatype and segment definition of every version but v, asked through
+    # the public lookups.  It runs atomically (no scheduling points of its own) at each point of the other thread's body,
+    # so that anything the library remembers per (name, version) - and bounds, evicts or empties when "full" - goes through
+    # its whole life between two lines of the other thread
+    c['sweep'] = ('W', lambda v, l: lambda: _sweep(v, l))
     return c
+
+
+def _sweep(v, l):
+    from hl7apy.factories import datatype_factory
+    from hl7apy.core import Field
+    h = hashlib.sha1()
+    n = 0
+    for w in common.VERSIONS:
+        if w == v:
+            continue
+        lib = libs()[w]
+        names = sorted(lib.DATATYPES_STRUCTS) + sorted(lib.BASE_DATATYPES)
+        for name in names:
+            h.update(repr((w, name, hl7apy.core.is_base_datatype(name, w))).encode())
+            n += 1
+        for name in sorted(lib.BASE_DATATYPES):
+            try:
+                r = datatype_factory(name, '1', w, l).to_er7()
+            except Exception as e:
+                r = type(e).__name__
+            h.update(repr((w, name, r)).encode())
+        for name in sorted(lib.SEGMENTS):
+            r = hl7apy.load_reference(name, 'Segment', w)
+            h.update(repr((w, name, r[0], len(r[1]))).encode())
+            n += 1
+        for name in sorted(lib.DATATYPES_STRUCTS)[::7]:
+            f = Field(datatype=name, version=w, validation_level=l)
+            h.update(repr((w, name, f.datatype, f.to_er7())).encode())
+    return n, h.hexdigest()
 
 
 def _comp(v, l):
@@ -324,6 +358,9 @@ def harnesses(tier):
     hs.append((('dup_names', 'dup_names'), mixed, 1, gran))
     hs.append((('fac_NMlong', 'fac_NMlong'), [('2.5', TOLERANT), ('2.5', TOLERANT)], 0, 'line'))
     hs.append((('fac_NMlong', 'fac_NM'), [('2.5', TOLERANT), ('2.7', TOLERANT)], 1, gran))
+    # every small and medium body preempted once, at each of its lines, by the whole sweep of the other versions
+    for a in S + M + (['message', 'parse_ack'] if not q else []):
+        hs.append(((a, 'sweep'), [('2.5', STRICT), ('2.5', TOLERANT)], 1, 'line|atomic:1'))
     tol2 = [('2.5', TOLERANT), ('2.5', TOLERANT)]
     if q:
         # large bodies: both serial orders (bound 0) in quick; preemptions in thorough
@@ -344,7 +381,12 @@ def harnesses(tier):
 REEXPLORE_CAP = 1000
 
 
+def atomic_of(gran):
+    return tuple(int(x[7:]) for x in gran.split('|')[1:] if x.startswith('atomic:'))
+
+
 def install_gran(gran):
+    gran = gran.split('|')[0]
     if gran == 'instr':
         sched.install(instruction_level_for=shared_state_functions())
     elif gran == 'shared':
@@ -488,8 +530,8 @@ def run_unit(unit, tier):
         return [m for m in makers]
 
     try:
-        n, capped = sched.explore(fresh_bodies, bound, on_exec, shard=shard)
-        if stats['wrote'] and bound < 2 and len(names) == 2 and not res.violations and shard is None:
+        n, capped = sched.explore(fresh_bodies, bound, on_exec, shard=shard, atomic=atomic_of(gran))
+        if stats['wrote'] and bound < 2 and len(names) == 2 and not res.violations and shard is None and not atomic_of(gran):
             install_gran('shared')
             n2, capped2 = sched.explore(fresh_bodies, bound + 1, on_exec, max_executions=REEXPLORE_CAP)
             n += n2
@@ -569,7 +611,7 @@ def replay(point, res):
     alone = [obs(m) for m in makers]
     fp0 = shallow_fingerprint()
     # one run: the runner confirms every violation in a fresh process, which is the second, independent run
-    r1, ex = sched.run_schedule(lambda: list(makers), point['choices'])
+    r1, ex = sched.run_schedule(lambda: list(makers), point['choices'], atomic=atomic_of(point.get('gran', 'line')))
     got = [tuple(r) if r[0] == 'raise' else ('ok', r[1]) for r in r1]
     pair = '+'.join(sorted(names))
     if got != alone:
